@@ -6,3 +6,11 @@ func ratAdd(a, b *big.Rat) *big.Rat { return new(big.Rat).Add(a, b) }
 func ratSub(a, b *big.Rat) *big.Rat { return new(big.Rat).Sub(a, b) }
 func ratMul(a, b *big.Rat) *big.Rat { return new(big.Rat).Mul(a, b) }
 func ratNeg(a *big.Rat) *big.Rat    { return new(big.Rat).Neg(a) }
+
+func sortStrings(s []string) {
+	for i := 1; i < len(s); i++ {
+		for j := i; j > 0 && s[j] < s[j-1]; j-- {
+			s[j], s[j-1] = s[j-1], s[j]
+		}
+	}
+}
